@@ -5,7 +5,10 @@ A case is expanded into CALLS (one protocol op each): the base input plus its me
 The implementation is driven through KymoTrack / KymoTrackGroup built on a blank kymograph (the way
 lumicks/pylake/simulation/diffusion.py does), plus the anchored module functions calculate_msd_counts,
 weighted_mean_and_sd and _msd_diffusion_covariance.  The model receives the exact rationals of the doubles the
-implementation actually used (positions read back from the KymoTrack, line time, blur constant)."""
+implementation actually used (positions read back from the KymoTrack, line time, blur constant).
+Simulated Brownian groups (kind 'brownian') are the exception: there the library builds the tracks AND their kymograph
+(simulation/diffusion.py), several simulations are run in a row in the same process (a session), and every observation is made
+on the group a simulation returned; the model and the oracle get the line time the simulation was asked for."""
 import itertools
 import math
 import warnings
@@ -178,30 +181,95 @@ def expand(case):
     elif kind == "cov":
         calls.append({"v": "base", "op": "cov", "K": case["K"], "n": case["n"], "a": case["a"], "b": case["b"]})
     elif kind == "brownian":
-        fs, cs = simulate(case)
-        calls.append({"v": "base", "op": "enscve", "frames": fs, "coords": cs, "px": 1.0, "dt": case["dt"], "blur": 0})
-        calls.append({"v": "base", "op": "ensols", "frames": fs, "coords": cs, "px": 1.0, "dt": case["dt"], "blur": 0, "L": 2})
+        # a SESSION: the simulations of the case are run one after the other in this process (after everything that was
+        # simulated `before`), and every observation is made on the KymoTrackGroup the simulation RETURNED (`obs`, recorded by
+        # simulate()); the model and the oracle are given the positions read back from it and the line time that was ASKED for
+        for k, (sim, rec) in enumerate(zip(sims_of(case), simulate(case))):
+            base = {"v": f"sim{k}", "frames": rec["frames"], "coords": rec["coords"], "px": 1.0, "dt": sim["dt"], "blur": 0}
+            calls.append(dict(base, op="enscve", obs=rec["obs"]["enscve"]))
+            if sim.get("ols", True):
+                calls.append(dict(base, op="ensols", L=2, obs=rec["obs"]["ensols"]))
+            one = dict(base, frames=rec["frames"][0] if rec["frames"] else [], coords=rec["coords"][0] if rec["coords"] else [])
+            calls.append(dict(one, op="kmsd", L=SIM_MSD_LAGS, obs=rec["obs"]["kmsd"]))
     else:
         raise ValueError(kind)
     return calls
 
 
+SIM_MSD_LAGS = 3
 _SIM = {}
+_SESSION = []  # the line times handed to simulate_diffusive_tracks so far in THIS process, in order of first use
+
+
+def sims_of(case):
+    """the simulations of a 'brownian' case in the order in which they are run (older single-simulation cases: one)"""
+    return case.get("sims") or [{k: case[k] for k in ("D", "dt", "steps", "num", "noise")}]
+
+
+def _simulate_group(sim):
+    from lumicks.pylake.simulation.diffusion import simulate_diffusive_tracks
+
+    if sim["dt"] not in _SESSION:
+        _SESSION.append(sim["dt"])
+    return simulate_diffusive_tracks(sim["D"], sim["steps"], sim["dt"], observation_noise=sim["noise"], num_tracks=sim["num"])
+
+
+def observe_group(g):
+    """what the property observes (observe_at: KymoTrack.msd, KymoTrackGroup.ensemble_diffusion) on a simulated group AS
+    RETURNED by the library - its tracks keep whatever kymograph / line time the simulation gave them"""
+    obs = {}
+    for name, f in (
+        ("enscve", lambda: g.ensemble_diffusion("cve")),
+        ("ensols", lambda: g.ensemble_diffusion("ols", max_lag=2)),
+        ("kmsd", lambda: g[0].msd(SIM_MSD_LAGS)),
+    ):
+        try:
+            e = f()
+            if name == "enscve":
+                obs[name] = (f"ok {rat(e.value)} {rat(float(e.std_err) ** 2)} {rat(e.localization_variance)} "
+                             f"{opt_rat(e.variance_of_localization_variance)} {int(e.num_points)}")
+            elif name == "ensols":
+                obs[name] = show_est(e)
+            else:
+                obs[name] = f"ok {rlist(e[0])} {rlist(e[1])}"
+        except Exception as err:  # noqa: BLE001
+            obs[name] = errname(err)
+    return obs
 
 
 def simulate(case):
-    """lumicks.pylake.simulation.simulate_diffusive_tracks with numpy's global generator seeded from the case"""
-    key = (case["seed"], case["D"], case["steps"], case["dt"], case["noise"], case["num"])
+    """run the session of a 'brownian' case: lumicks.pylake.simulation.simulate_diffusive_tracks once per entry of `sims`, in
+    order, in this process, with numpy's global generator seeded from the case.  The line times simulated earlier in the run
+    (`before`) are part of the input: in a full run the earlier cases have used them already; when the case is replayed alone
+    they are simulated first (one 3-point track each), so that whatever the library keeps between calls is in the same state.
+    Returns one record per simulation: frames / positions read back from the returned group + observe_group() of it."""
+    sims = sims_of(case)
+    key = (case["seed"], tuple(case.get("before", [])), tuple(tuple(sorted(s.items())) for s in sims))
     if key not in _SIM:
-        if len(_SIM) > 64:
+        if len(_SIM) > 1024:
             _SIM.clear()
-        from lumicks.pylake.simulation.diffusion import simulate_diffusive_tracks
-
         state = np.random.get_state()
         np.random.seed(case["seed"] % (2**32))
-        g = simulate_diffusive_tracks(case["D"], case["steps"], case["dt"], observation_noise=case["noise"], num_tracks=case["num"])
-        np.random.set_state(state)
-        _SIM[key] = ([[int(i) for i in t.time_idx] for t in g], [[float(x) for x in t.position] for t in g])
+        out = []
+        try:
+            with warnings.catch_warnings():
+                warnings.simplefilter("ignore")
+                for dt in case.get("before", []):
+                    if dt not in _SESSION:
+                        try:
+                            _simulate_group({"D": 1.0, "steps": 3, "dt": dt, "noise": 0, "num": 1})
+                        except Exception:  # noqa: BLE001 - reported by the case that owns this line time
+                            pass
+                for sim in sims:
+                    try:
+                        g = _simulate_group(sim)
+                        out.append({"frames": [[int(i) for i in t.time_idx] for t in g],
+                                    "coords": [[float(x) for x in t.position] for t in g], "obs": observe_group(g)})
+                    except Exception as err:  # noqa: BLE001 - the simulation itself raised: every observation is that error
+                        out.append({"frames": [], "coords": [], "obs": {k: errname(err) for k in ("enscve", "ensols", "kmsd")}})
+        finally:
+            np.random.set_state(state)
+        _SIM[key] = out
     return _SIM[key]
 
 
@@ -240,6 +308,8 @@ def show_est(e):
 def run_call(c):
     _, me, KymoTrack, KymoTrackGroup = _lk()
     op = c["op"]
+    if "obs" in c:  # made on the group a simulation returned, at the time it returned it (see simulate)
+        return c["obs"]
     if op == "wmean":
         w = me.weighted_mean_and_sd(np.array(c["means"], dtype=float), np.array(c["counts"], dtype=np.int64))
         return "ok " + " ".join(rat(x) for x in w)
@@ -956,18 +1026,43 @@ def s_nonempty(sm):
 
 
 def oracle_brownian(case, ia):
-    """exploration, not proof: the ensemble estimates of simulated Brownian tracks lie within 5 (cve) / 8 (ols, looser:
-    its sampling error is only bounded through the cve's) standard deviations of the simulated diffusion constant"""
-    D, dt, N, T, noise = case["D"], case["dt"], case["steps"], case["num"], case["noise"]
-    eps = noise**2 / (D * dt)
-    var_track = D * D * ((6 + 4 * eps + 2 * eps * eps) / N + 4 * (1 + eps) ** 2 / N**2)
-    sd = math.sqrt(var_track / T)
-    for a, nsd, name in ((ia[0], 5, "cve"), (ia[1], 8, "ols")):
+    """On simulated Brownian tracks the estimators recover the simulated diffusion constant within sampling error - for every
+    line time, whatever was simulated before in the same session.  Judged on the library's answers for the group each
+    simulation RETURNED:
+    * statistical (exploration, not proof): the ensemble estimates lie within 5 (cve) / 8 (ols, looser: its sampling error is
+      only bounded through the cve's) standard deviations of the simulated diffusion constant;
+    * exact: the simulated tracks live on the line time that was simulated - KymoTrack.msd reports the pair means of the
+      track's positions at lag times lag * dt (the clause of the `kmsd` op, here for a kymograph the LIBRARY attached).  A group
+      that carries another line time c * dt reports D / c however long the tracks are; the band above only sees that once
+      |1 - 1/c| exceeds the sampling error."""
+    calls = calls_of(case)
+    sims = sims_of(case)
+    for k, sim in enumerate(sims):
+        D, dt, N, T, noise = sim["D"], sim["dt"], sim["steps"], sim["num"], sim["noise"]
+        where = f"simulation {k + 1} of {len(sims)} of the session (D={D}, line time {dt!r}, {T} tracks of {N} points)"
+        mine = {c["op"]: (c, ia[i]) for i, c in enumerate(calls) if c["v"] == f"sim{k}"}
+        c, a = mine["kmsd"]
         if not a.startswith("ok "):
-            return f"brownian {name}: raised {a}"
-        v = ptok(a.split()[1])
-        if isinstance(v, float) or abs(float(v) - D) > nsd * sd:
-            return f"brownian {name}: ensemble estimate {float(v)!r} is more than {nsd} sigma ({sd:.3g}) from the simulated D={D}"
+            return f"brownian time axis: KymoTrack.msd of a simulated track raised {a}; {where}"
+        got = [ptok(t) for t in a.split()[1:]]
+        exp = brute_msd(c["frames"], frs(positions_of(c["coords"], 1.0)), SIM_MSD_LAGS)
+        if not near_list(got[0], [e[0] * Fr(dt) for e in exp]):
+            return (f"brownian time axis: the simulated tracks do not live on the simulated line time, KymoTrack.msd lag times "
+                    f"{[float(x) for x in got[0]]} are not lag * {dt!r}; {where}")
+        if not near_list(got[1], [e[1] for e in exp]):
+            return f"brownian msd: KymoTrack.msd of a simulated track is not the pair means of its positions; {where}"
+        eps = noise**2 / (D * dt)
+        var_track = D * D * ((6 + 4 * eps + 2 * eps * eps) / N + 4 * (1 + eps) ** 2 / N**2)
+        sd = math.sqrt(var_track / T)
+        for name, op, nsd in (("cve", "enscve", 5), ("ols", "ensols", 8)):
+            if op not in mine:
+                continue
+            a = mine[op][1]
+            if not a.startswith("ok "):
+                return f"brownian {name}: raised {a}; {where}"
+            v = ptok(a.split()[1])
+            if isinstance(v, float) or abs(float(v) - D) > nsd * sd:
+                return f"brownian {name}: ensemble estimate {float(v)!r} is more than {nsd} sigma ({sd:.3g}) from the simulated D; {where}"
     return None
 
 
@@ -1208,6 +1303,64 @@ def make_far(rng, case):
     return case
 
 
+# line times of simulated acquisitions: the ones the library's own tests use (5 s, 10 ms), confocal line times of 1 s .. 30 ms,
+# and fast scans of a few ms down to 0.1 ms
+SIM_DTS = [5.0, 1.0, 0.5, 0.1, 0.0312, 0.01, 0.0016, 2.5e-4, 1e-4, 1.7]
+SESSION_MODES = ["digits", "digits", "digits", "relative", "relative", "repeat", "free"]
+
+
+def close_line_times(rng):
+    """(mode, 2-3 line times) for consecutive simulations in one session.  Mostly DIFFERENT line times that are close in one
+    of the ways two acquisitions can be close, so that anything the library remembers from the earlier simulation under a key
+    that is coarser than the line time itself (rounded, truncated, compared with a tolerance, float32 ...) is handed to the
+    later one:
+    digits   - equal when rounded to d = 1..6 decimals (and, for some of the pairs, when truncated there) although they differ
+               by a sizeable factor: (m + u) * 10^-d with a small m, e.g. 0.1 / 0.3 / 0.45 ms, 1.6 / 2.4 ms, 10.1 / 10.4 ms, 0.7 / 1.3 s
+    relative - a common line time and one that is larger by a factor 1 + 2^-e (e = 4..28), or its float32 rounding
+    repeat   - the SAME line time again, with another one in between (remembering is then legitimate)
+    free     - unrelated line times"""
+    k = rng.choice([2, 2, 3])
+    mode = rng.choice(SESSION_MODES)
+    if mode == "digits":
+        d, m = rng.choice([1, 2, 3, 3, 4, 5, 6]), rng.choice([0, 0, 1, 2, 2, 3, 7, 10])
+        us = rng.sample([u for u in (-0.45, -0.35, -0.2, -0.1, 0.1, 0.2, 0.3, 0.4, 0.45) if m + u > 0], k)
+        dts = [round((m + u) * 10.0**-d, d + 2) for u in us]
+    elif mode == "relative":
+        b = rng.choice(SIM_DTS)
+        dts = [b] + [b * (1 + 2.0 ** -rng.choice([4, 6, 10, 16, 22, 28])) for _ in range(k - 1)]
+        if rng.chance(0.3) and float(np.float32(b)) != b:
+            dts[-1] = float(np.float32(b))
+        rng.shuffle(dts)
+    elif mode == "repeat":
+        b, o = rng.sample(SIM_DTS, 2)
+        dts = [b, o, b] if k == 3 else [b, b]
+    else:
+        dts = rng.sample(SIM_DTS, k)
+    return mode, [float(x) for x in dts]
+
+
+def gen_session(rng, quick):
+    """a session of simulate_diffusive_tracks calls (kind 'brownian').  Groups of many short tracks: the sampling error of the
+    ensemble estimates goes with 1/sqrt(points in the group), the cost of the model's MSD mesh with points * track length.
+    5 sigma of the ensemble CVE is then 0.26-0.32 D, so that the band itself sees a group whose estimates are off by 1.5x
+    (0.4 D and more on the one simulation per session that also gets the ensemble OLS, whose model cost is the mesh)."""
+    mode, dts = close_line_times(rng)
+    D = rng.choice([0.5, 2.0, 10.0])
+    sizes = [(40, 50), (30, 50), (40, 40)] if quick else [(40, 50), (30, 50), (40, 40), (60, 30), (100, 10), (25, 50)]
+    rel = rng.choice([0.0, 0.0, 0.5])
+    ols_at = rng.randint(0, len(dts) - 1)  # the ensemble OLS (expensive in the model) on one simulation of the session
+    ols_sizes = [(20, 50), (25, 40)] if quick else [(20, 50), (25, 40), (30, 50), (40, 40), (60, 10), (100, 10)]
+    sims = []
+    for k, dt in enumerate(dts):
+        if rng.chance(0.25):
+            D = rng.choice([0.5, 2.0, 10.0])
+        steps, num = rng.choice(sizes)
+        if k == ols_at:
+            steps, num = rng.choice(ols_sizes)
+        sims.append({"D": D, "dt": dt, "steps": steps, "num": num, "noise": rel * math.sqrt(D * dt), "ols": k == ols_at})
+    return {"stream": "brownian", "kind": "brownian", "seed": rng.randint(0, 2**31), "mode": mode, "sims": sims}
+
+
 def small_scope(quick):
     """every track of 3..5 points on frames within 0..4 (all gap patterns) with positions in {0,1,3}/4 px (first = 0)"""
     i = 0
@@ -1321,6 +1474,17 @@ def corpus():
 
 
 def cases(tier, rng):
+    """all cases of a run; the simulation sessions ('brownian') additionally get the line times that the earlier cases of the
+    run have simulated (`before`): the run is ONE Python session, and a case replayed alone must see the same past"""
+    past = []
+    for c in _cases(tier, rng):
+        if c["kind"] == "brownian":
+            c["before"] = list(past)
+            past.extend(dt for dt in (s_["dt"] for s_ in sims_of(c)) if dt not in past)
+        yield c
+
+
+def _cases(tier, rng):
     quick = tier == "quick"
     yield from corpus()
     yield from malformed(rng.fork("c09-malformed"), 40 if quick else 600)
@@ -1354,12 +1518,12 @@ def cases(tier, rng):
         K = sub.randint(1, 8)
         yield {"stream": "random", "kind": "cov", "subseed": i, "K": K, "n": K + sub.choice([0, 1, 2, sub.randint(0, 30)]),
                "a": sub.choice([0.0, sub.uniform(-1, 2), sub.randint(-64, 64) / 64]), "b": sub.choice([0.0, sub.uniform(0, 3), sub.randint(0, 128) / 64])}
-    r = rng.fork("c09-brownian")
+    r = rng.fork("c09-brownian")  # sessions of 2-3 simulations with (mostly) close line times, see gen_session
     for i in range(8 if quick else 120):
         sub = r.fork(i)
-        D, dt = sub.choice([0.5, 2.0, 10.0]), sub.choice([0.1, 0.01])
-        yield {"stream": "brownian", "kind": "brownian", "subseed": i, "seed": sub.randint(0, 2**31), "D": D, "dt": dt, "steps": sub.choice([60, 100]),
-               "num": 10, "noise": sub.choice([0.0, 0.5 * math.sqrt(D * dt)])}
+        c = gen_session(sub, quick)
+        c["subseed"] = i
+        yield c
     # (forked last: the streams above are those of the earlier versions of this check)
     r = rng.fork("c09-ens-shared")  # groups whose tracks share a sampling scheme: holes in the ensemble lag set
     for i in range(40 if quick else 900):
@@ -1407,8 +1571,19 @@ def extra_coverage(results):
     exact = {"dyadic-grid": 0, "arbitrary-doubles": 0}
     blur, groups = {}, {}
     dist = {}  # largest |position| / position range of a call: how far from the origin relative to the displacements
+    sess = {"sessions": 0, "simulations": 0, "by_mode": {}, "closest_pair_of_distinct_line_times_in_or_before_a_session": {}}
     for r in results:
         c = r["case"]
+        if c["kind"] == "brownian":
+            sess["sessions"] += 1
+            sess["simulations"] += len(sims_of(c))
+            sess["by_mode"][c.get("mode", "?")] = sess["by_mode"].get(c.get("mode", "?"), 0) + 1
+            mine = [s_["dt"] for s_ in sims_of(c)]
+            rel = [abs(a - b) / max(a, b) for i, a in enumerate(mine) for b in mine[:i] + list(c.get("before", [])) if a != b]
+            q = min(rel) if rel else None
+            b = "none" if q is None else "<1e-6" if q < 1e-6 else "1e-6..1e-2" if q < 1e-2 else "1e-2..0.2" if q < 0.2 else ">=0.2"
+            d_ = sess["closest_pair_of_distinct_line_times_in_or_before_a_session"]
+            d_[b] = d_.get(b, 0) + 1
         if c["kind"] in ("track", "ens"):
             for call in expand(c):
                 if call["op"] in ("msd", "ensmsd"):
@@ -1441,6 +1616,7 @@ def extra_coverage(results):
             "track_lengths": sizes, "frame_gaps": gaps, "position_grid": exact, "blur_constants": blur, "group_sizes": groups,
             "cases_whose_fitted_lags_skip_a_value": holes,
             "msd_calls_by_distance_from_origin_over_position_range": dist,
+            "simulation_sessions": sess,
             "tolerance": "1e-9 * scale (scale computed by the model from absolute values of every term)",
             "exhaustive": False,
             "exhaustive_note": "the small-scope stream enumerates its finite space completely on thorough (strided on quick); random streams do not"}
@@ -1463,7 +1639,14 @@ RULE = (
     "there - dyadic grid or arbitrary doubles - and/or an exact translation there as the extra variant 'far', every track of a "
     "group by its own amount; also in both small scopes; now and then a frame shift of 2^20..2^31), where only a formula in "
     "terms of displacements keeps its accuracy; direct weighted_mean_and_sd and _msd_diffusion_covariance calls; seeded Brownian "
-    "simulations (5-sigma band, exploration). Non-trivial: a track case with >=3 points, a numeric estimate and at least one "
+    "simulation SESSIONS: 2-3 simulate_diffusive_tracks calls in a row in the one process of the run (which is itself one session: "
+    "every case also records the line times simulated before it and re-simulates them when replayed alone), with line times "
+    "0.1 us..5 s that are mostly close to each other - equal when rounded/truncated to 1..6 decimals though they differ by a "
+    "sizeable factor (0.1/0.3/0.45 ms, 1.6/2.4 ms, 0.7/1.3 s), differing by a factor 1+2^-4..1+2^-28 or by float32 rounding, "
+    "the same line time repeated with another in between, unrelated ones - on groups of 40-50 tracks of 30-40 points (thorough "
+    "also 10-30 tracks of 60-100; the ensemble OLS on one simulation per session, quick: 40-50 tracks of 20-25 points); ensemble "
+    "CVE / OLS and KymoTrack.msd are taken from the group the simulation RETURNED "
+    "(5/8-sigma band around the simulated D, exploration; lag times = lag * simulated line time, exact; model fed with the line time asked for). Non-trivial: a track case with >=3 points, a numeric estimate and at least one "
     "metamorphic variant; an ensemble with >=2 tracks and a numeric answer; a malformed case that raises."
 )
 TRUSTED = [
@@ -1479,6 +1662,7 @@ ASSUMPTIONS = [
     "outside the model (oracle/metamorphic exploration only): GLS iteration, determine_optimal_points (max_lag=None for ols and "
     "ensemble ols: the oracle takes the reported num_lags and checks the normal equations through the first num_lags MSD points), "
     "GLS under position scaling (absolute tolerance 1e-4 in the iteration), blur = nan kymographs, groups mixing kymographs with "
-    "different line times, recovery of D on simulated Brownian tracks (statistical, 5-sigma band)",
+    "different line times, recovery of D on simulated Brownian tracks (statistical, 5-sigma band on the group the simulation "
+    "returned; that the returned tracks carry the simulated line time is checked exactly, for sessions of several simulations)",
     "cve_scale needs a != 0; ols_normal_equations/ols_minimises need a non-degenerate design (K*sum(l^2) != (sum l)^2, i.e. >= 2 distinct lags)",
 ]
